@@ -14,8 +14,12 @@ META = {
             "maps the unique function's parameters to parameters at which the function equals its unique pointwise (5 generic points, mpmath); "
             "'nan' entries only where the unique has strictly fewer parameters; uniques pairwise distinct, parameters without gaps; all per-function "
             "files have one line per function. The propagation of the substitution chains through do_sympy and the round files, the chain assembly in duplicate_checker.main "
-            "(all_inv_subs = [[]] * ntot with rebinding) and the per-step contract of sympy_simplify are covered by the bounded part only; the cancellation of chains is C17, the "
-            "repair step check_results is exercised by C13/C15.",
+            "(all_inv_subs = [[]] * ntot with rebinding) and the per-step contract of sympy_simplify are covered by the bounded part only; the cancellation of chains is C17. "
+            "The repair step: the rank-0 bookkeeping at the end of check_results is verified in three regions (which strings are appended to the unique list: pairwise distinct, never an "
+            "old unique function, every un-merged function found in old_pos or among the appended ones; the map rows of the un-merged functions become the empty row, all others unchanged; "
+            "the matches of the un-merged functions become the old position or nuniq + new position, all others unchanged) with a composition lemma: the rewritten unique list is "
+            "duplicate-free and every un-merged function's match holds its own string. The file round trips between the regions and the parallel verification loop of check_results are "
+            "covered by the bounded part (corrupted maps, C13/C15).",
     "note": "Bounded by complexity and bases listed in the evidence; numeric oracle independent of sympy simplification. A-sympy for parsing only.",
     "technique": "contract-based deductive verification of the index bookkeeping (AST->VC->SMT) + bounded stand-in of the library contract on the real code",
 }
@@ -49,6 +53,26 @@ def check(run):
     failed_all += failed
     if st != "unsupported" and D.canary(run, "generation/duplicate_checker.py", "main", c_utils.shuffle_contract) is False:
         raise RuntimeError("canary verified: engine vacuous on the shuffle region")
+    # the repair step: rank-0 bookkeeping at the end of check_results (three regions + composition lemma, contracts/c_checkres.py)
+    from contracts import c_checkres
+    for tag, mk, note in (("unmerge-strings", c_checkres.r1_contract, "region: nuniq ... new_uniq_fun (old_pos, the filter, get_unique_indexes through its verified contract)"),
+                          ("unmerge-maps", c_checkres.r2_contract, "region: the loop blanking the map rows of the un-merged functions"),
+                          ("unmerge-matches", c_checkres.r3_contract, "region: the loop rewriting the matches of the un-merged functions")):
+        st, failed, eng = D.verify_function(run, "generation/simplifier.py", "check_results", mk, timeout_ms=10000, tag=tag, note=note)
+        failed_all += failed
+        if st == "proved" and D.canary(run, "generation/simplifier.py", "check_results", mk) is False:
+            raise RuntimeError("canary verified: engine vacuous on check_results region %s" % tag)
+    lfailed = D.prove_lemmas(run, "check_results: composition of the un-merge regions", c_checkres.composition_lemmas(), timeout_ms=20000)
+    crjob = {"runname": "core_maths", "n": 4, "P_list": [1, 2] if tier == "quick" else [1, 2, 5], "ncorrupt": 6 if tier == "quick" else 12}
+    rcr = run.harness("rt_gen.py", {"mode": "c13cr", "jobs": [crjob], "seed": run.seed}, root=run.fresh_copy(), timeout=3000)
+    run.add_bounded("check_results repairs deliberately corrupted parameter maps: the C03 library predicate holds afterwards (distinct uniques, every match points at an equal function)",
+                    "simplifier.check_results", "core_maths 4, %d corrupted rows, P in %s" % (crjob["ncorrupt"], crjob["P_list"]), rcr["cases"], rcr["distinct"], len(rcr["failures"]))
+    for f in rcr["failures"][:1]:
+        run.violation("c03cr:%s:%d:P=%s" % (f["job"]["runname"], f["job"]["n"], f.get("P")), f["error"][:900],
+                      {"harness": "rt_gen.py", "payload": {"mode": "c13cr", "jobs": [dict(f["job"], P_list=[f.get("P", 1)])], "seed": run.seed}, "fresh_copy": True})
+    if lfailed and not run.violations:
+        run.violation("lemma:" + lfailed[0][0][:60], "composition lemma of the un-merge regions is no longer proved: %s" % lfailed[0][0],
+                      {"lemma": lfailed[0][0], "model": str(lfailed[0][1])[:2000]}, no_input=True)
     run.trust("pyvc", "z3 5.1.0")
     run.assume("A-str: strings are abstract labels with equality", "A-ext: OrderedDict / set / dict comprehension models of pyvc (insertion order, membership)")
     groups = genjobs.job_groups(tier, run.seed, per_lib_sample=2500 if tier == "quick" else None)
